@@ -8,6 +8,6 @@ CONSTANTS
 INIT Init
 NEXT Next
 VIEW View
-INVARIANTS Total StartsRan NextLater Grid NoPanic EarliestIsStart
-PROPERTIES Mono Stable DelOk
+INVARIANTS CurNextOk CurStartOk Total StartsRan NextLater Grid NoPanic EarliestIsStart
+PROPERTIES Announced Mono Stable DelOk
 CHECK_DEADLOCK FALSE
